@@ -64,6 +64,7 @@ type Engine struct {
 	sents                                                                                    map[string]*IfaceV
 	lastAlloc                                                                                *Term
 	crcMemo                                                                                  map[string]*Term
+	jsonMemo                                                                                 map[string]*IfaceV
 	reMemo                                                                                   map[string]*Term
 
 	// witness sampling (translation validation of complete paths against the native build)
